@@ -562,6 +562,10 @@ def ConvOut.checksLin (o : ConvOut) (cfg : Cfg) : Bool :=
   decide (cfg.opts.bigM ≤ 0) && o.blocks.all (fun b => b.refusal.isNone && b.localRows o.N) &&
   o.defs.all (linDefOK o.B)
 
+/-- the non-structural part of `checks`: finite root data (the structural part — creation order, defined indices, bounds as
+created, typing, covering contexts — is proved to hold for every input, `checked_of_vok`) -/
+def ConvOut.checksSem (o : ConvOut) : Bool := o.roots.all finiteRoot
+
 /-- syntactic part of the fragment: every variable leaf is a variable of the model -/
 def NLModel.vok (m : NLModel) : Bool :=
   m.cons.all (fun c => c.1.vok m.n0) && m.lcons.all (fun l => l.vok m.n0) &&
